@@ -155,7 +155,7 @@ pub fn run(ctx: &Ctx) -> Result<Evidence, String> {
     let mut pats: Vec<String> = patterns().iter().map(|s| s.to_string()).collect();
     // random patterns from a small pattern grammar
     let mut rng = Rng::stream(ctx.seed, 10);
-    for _ in 0..ctx.tier.pick(60, 20000) {
+    for _ in 0..ctx.tier.pick(60, 8000) {
         pats.push(random_pattern(&mut rng, 3));
     }
     let rdocs: Vec<Doc> = pats.iter().map(|p| Doc::new(&regex_doc(p))).collect();
